@@ -378,7 +378,7 @@ impl<'a, R: RoleX, T: IsPacketId> Gen<'a, R, T> {
         if self.rng.chance(1, 8) {
             ps.push(P::Pair(b"key".to_vec(), b"val".to_vec()));
         }
-        if with_alias.is_some() && self.rng.chance(1, 6) {
+        if (with_alias.is_some() || self.s.field("amap") == "1" || self.s.field("arep") == "1") && self.rng.chance(1, 6) {
             // the properties other than the alias total 124..129 bytes: with / without the 3-byte
             // alias the property section's length field is one / two bytes wide
             let other: usize = ps.iter().map(|p| match p { P::U8(..) => 2, P::U16(..) => 3, P::U32(..) => 5, P::Str(_, s) => 3 + s.len(), P::Pair(k, v) => 5 + k.len() + v.len() }).sum();
@@ -586,10 +586,14 @@ impl<'a, R: RoleX, T: IsPacketId> Gen<'a, R, T> {
     fn subscribe_flow(&mut self) {
         let v = self.ver();
         let pw = self.pw();
+        // filters: plain, non-ASCII (multi-byte characters at various byte offsets), shared
+        const FILTERS: [&[u8]; 8] = [b"f/#", b"x", "se\u{f1}al\u{e9}s/#".as_bytes(), "\u{65e5}\u{672c}\u{8a9e}/+".as_bytes(), "sensor\u{20ac}/t".as_bytes(),
+            b"$share/g/t", "$share/\u{e9}/t".as_bytes(), "abcdef\u{1f600}".as_bytes()];
         match self.rng.below(6) {
             0 | 1 => {
                 let id = self.fresh_id();
-                let b = w_subscribe(v, pw, id, &[(b"f/#", self.rng.below(3) as u8)], &[]);
+                let f: &[u8] = if self.rng.chance(1, 3) { *self.rng.pick(&FILTERS) } else { b"f/#" };
+                let b = w_subscribe(v, pw, id, &[(f, self.rng.below(3) as u8)], &[]);
                 self.my_ids.retain(|x| *x != id);
                 self.op(format!("send {} {}", v, hex(&b)));
                 self.after_send(id);
@@ -598,7 +602,8 @@ impl<'a, R: RoleX, T: IsPacketId> Gen<'a, R, T> {
             }
             2 => {
                 let id = self.fresh_id();
-                let b = w_unsubscribe(v, pw, id, &[b"f/#"]);
+                let f: &[u8] = if self.rng.chance(1, 3) { *self.rng.pick(&FILTERS) } else { b"f/#" };
+                let b = w_unsubscribe(v, pw, id, &[f]);
                 self.my_ids.retain(|x| *x != id);
                 self.op(format!("send {} {}", v, hex(&b)));
                 self.after_send(id);
@@ -621,7 +626,8 @@ impl<'a, R: RoleX, T: IsPacketId> Gen<'a, R, T> {
                 // peer subscribes / we answer (server side)
                 let id = *self.rng.pick(&[1u64, 2, 0, 300]);
                 if self.rng.chance(1, 2) {
-                    let b = if self.rng.chance(1, 2) { w_subscribe(v, pw, id, &[(b"x", 1)], &[]) } else { w_unsubscribe(v, pw, id, &[b"x"]) };
+                    let f: &[u8] = *self.rng.pick(&FILTERS);
+                    let b = if self.rng.chance(1, 2) { w_subscribe(v, pw, id, &[(f, 1)], &[]) } else { w_unsubscribe(v, pw, id, &[f]) };
                     self.recv(b);
                 } else {
                     let b = if self.rng.chance(1, 2) { w_suback(v, pw, id, &[1]) } else { w_unsuback(v, pw, id, &[0]) };
@@ -703,6 +709,12 @@ impl<'a, R: RoleX, T: IsPacketId> Gen<'a, R, T> {
             4 => {
                 if let Some(v) = self.my_ids.pop() {
                     self.op(format!("release {v}"));
+                } else if !self.inflight.is_empty() && self.s.field("store") == "-" && self.rng.chance(1, 2) {
+                    // the application abandons an exchange in flight (nothing of it is stored): the
+                    // identifier is released, the late acknowledgements of the peer still arrive
+                    let (id, _) = self.inflight[self.rng.below(self.inflight.len() as u64) as usize];
+                    self.op(format!("release {id}"));
+                    self.op("vacancy".into());
                 }
             }
             5 => {
@@ -862,11 +874,12 @@ impl<'a, R: RoleX, T: IsPacketId> Gen<'a, R, T> {
                     1 => vec![0xd0, 0x01, 0x00],
                     2 => vec![0xd0, 0x02, 0x00, 0x00],
                     3 if v == 4 => vec![0xe0, 0x01, 0x00],
-                    _ => {
+                    _ if !self.legal || self.status() != "D" => {
                         let mut b = w_connack(v, false, 0, &[]);
                         b[2] |= 0x02;
                         b
                     }
+                    _ => vec![0xc0, 0x01, 0x00],
                 };
                 self.recv(b);
             }
@@ -903,8 +916,9 @@ impl<'a, R: RoleX, T: IsPacketId> Gen<'a, R, T> {
                 let mut b = match self.rng.below(5) {
                     0 => w_publish(v, pw, 1, false, false, b"a", 1, &[], b"pl"),
                     1 => w_ack(v, pw, 4, 1, Some(0), Some(&[])),
-                    2 => w_connack(v, false, 0, &[P::U16(33, 5)]),
-                    3 => w_suback(v, pw, 1, &[0]),
+                    // (contract: no CONNACK, mutated or not, for an endpoint that has sent no CONNECT on this transport)
+                    2 if !self.legal || self.status() == "C" || (self.status() == "G" && self.s.field("cli") == "1") => w_connack(v, false, 0, &[P::U16(33, 5)]),
+                    2 | 3 => w_suback(v, pw, 1, &[0]),
                     _ => w_connect(v, true, 10, b"c", &[P::U16(34, 3)]),
                 };
                 match self.rng.below(4) {
@@ -954,8 +968,11 @@ impl<'a, R: RoleX, T: IsPacketId> Gen<'a, R, T> {
                         let clean = self.rng.chance(1, 2);
                         self.recv(w_connect(v, clean, 10, b"c2", &[]));
                     }
-                } else {
+                } else if !self.legal || (self.status() == "G" && self.s.field("cli") == "1") {
+                    // (contract: no CONNACK for an endpoint that has not sent a CONNECT on this transport)
                     self.recv(w_connack(v, true, 0, &[P::U16(33, 0)]))
+                } else {
+                    self.recv(w_simple(0xd0))
                 }
             }
         }
@@ -1127,12 +1144,36 @@ fn walk<R: RoleX, T: IsPacketId>(role: &'static str, ver: u8, steps: usize, rng:
         // 3-byte alias property pushes the remaining length over a variable-byte-integer step)
         g.op("set amap 1".into());
         g.force_ok = true;
-        g.force_peer_mps = Some(*g.rng.pick(&[64u32, 100, 129, 130, 131, 132, 133, 134]));
+        // variant: the properties total 125..127 bytes, so the added alias widens the property
+        // length field as well; the limit sits at the size after the rewrite (one byte more / less)
+        let wide: Option<Vec<u8>> = if g.rng.chance(1, 3) {
+            let other = 124 + g.rng.below(5) as usize;
+            let q = *g.rng.pick(&[0u8, 1]);
+            Some(w_publish(5, g.pw(), q, false, false, b"a", 1, &[P::Pair(b"k".to_vec(), vec![b'v'; other - 6])], b"x"))
+        } else {
+            None
+        };
+        g.force_peer_mps = Some(match &wide {
+            Some(b) => (b.len() as i64 + 3 + *g.rng.pick(&[-1i64, 0, 0, 1, 1])) as u32,
+            None => *g.rng.pick(&[64u32, 100, 129, 130, 131, 132, 133, 134]),
+        });
         g.force_peer_tam = Some(*g.rng.pick(&[1u16, 2, 3]));
         g.handshake();
         g.force_ok = false;
         g.force_peer_mps = None;
         g.force_peer_tam = None;
+        if let Some(b) = wide {
+            if g.status() == "C" {
+                let q1 = (b[0] >> 1) & 3 > 0;
+                if q1 {
+                    g.op("register 1".into());
+                }
+                g.op(format!("send 5 {}", hex(&b)));
+                if q1 {
+                    g.after_send(1);
+                }
+            }
+        }
         g.boundary = true;
         g.plain_pub = true;
         for _ in 0..6 {
@@ -1753,6 +1794,60 @@ fn walk<R: RoleX, T: IsPacketId>(role: &'static str, ver: u8, steps: usize, rng:
         g.force_ok = false;
         g.force_persist = false;
         g.force_clean = None;
+    }
+    if g.legal && g.s.version() != 0 && g.rng.chance(1, 10) {
+        // directed: the application abandons exchanges in flight (`release`) at each stage - after
+        // the PUBLISH, after the PUBREL - in a session that stores nothing; the peer's late
+        // acknowledgements still arrive; the vacancy is asked for after every step
+        let v = g.ver();
+        let pw = g.pw();
+        g.op("set apr 0".into());
+        g.op("set off 0".into());
+        g.force_ok = true;
+        g.force_clean = Some(true);
+        g.force_peer_rm = Some(*g.rng.pick(&[1u16, 2, 3]));
+        g.handshake();
+        g.force_peer_rm = None;
+        g.force_clean = None;
+        g.force_ok = false;
+        if g.status() == "C" && g.s.field("need_store") == "0" {
+            for _ in 0..2 {
+                if g.status() != "C" {
+                    break;
+                }
+                let q = *g.rng.pick(&[1u8, 2, 2]);
+                let id = g.fresh_id();
+                g.op(format!("send {} {}", v, hex(&w_publish(v, pw, q, false, false, b"a", id, &[], b"ab"))));
+                g.after_send(id);
+                let stage = g.rng.below(3);
+                if stage == 0 {
+                    g.op(format!("release {id}"));
+                    g.op("vacancy".into());
+                }
+                if q == 1 {
+                    g.op(format!("recv {}", hex(&w_ack(v, pw, 4, id, None, None))));
+                } else {
+                    g.op(format!("recv {}", hex(&w_ack(v, pw, 5, id, None, None))));
+                    if stage != 0 && g.pubrec_delivered(id) && g.pubrec_done(id) {
+                        g.op(format!("send {} {}", v, hex(&w_ack(v, pw, 6, id, None, None))));
+                        if stage == 1 {
+                            g.op(format!("release {id}"));
+                            g.op("vacancy".into());
+                        }
+                        g.op(format!("recv {}", hex(&w_ack(v, pw, 7, id, None, None))));
+                    }
+                }
+                if g.status() == "C" {
+                    g.op("vacancy".into());
+                    g.op("acquire".into());
+                    if let Some(x) = g.last_ret().strip_prefix("ok") {
+                        let x = x.to_string();
+                        g.op(format!("release {x}"));
+                    }
+                }
+            }
+        }
+        g.inflight.clear();
     }
     if !g.started && g.rng.chance(1, 6) {
         // resume from an export made by a previous process (before any connection of this object)
